@@ -85,10 +85,15 @@ def run(ctx):
             continue
         cov = rng.choice([0.1, 0.6, 0.6, 1.0])
         ngram = rng.choice([2, 3, 4, 5])
+        if i == 3:
+            # whatever the seed: a degenerate OMEN part - every password is shorter than the n-gram size, so the trainer learns no
+            # alphabet and no n-gram; with coverage 1 (no Markov share asked for) training succeeds and the ruleset must still generate
+            pws = [p for p in ['1234', 'abcd', 'Pass', '#1ab', 'a b1', '1999', 'qwer', 'zz!9', '0000', '1234', 'abcd', 'Abcd'] if p.encode(enc, 'ignore').decode(enc, 'ignore') == p]
+            cov, ngram = 1.0, 5
         tf = os.path.join(root, 'train.txt')
         # the list in the `sort | uniq -c` layout (trainer --prefixcount): right-aligned counter, one space, the password - which may
         # itself begin with spaces
-        counted = (i == 2) or (i > 2 and rng.random() < 0.25)
+        counted = (i == 2) or (i > 3 and rng.random() < 0.25)
         if counted:
             pws = [' dragon77', '  letmein', ' dragon77'] + pws
             pws = sorted(pws)
@@ -178,7 +183,10 @@ def replay(ctx, payload):
     ok, _ = common.train(tf, rd, encoding=w['encoding'], ngram=w['ngram'], coverage=w['coverage'], prefixcount=w.get('prefixcount', False))
     if not ok:
         return []
-    pcfg = common.load_grammar(rd, skip_brute=True)
+    try:
+        pcfg = common.load_grammar(rd, skip_brute=True)
+    except Exception as e:
+        return [{'kind': 'load-raised', 'error': repr(e)[:200]}]
     pq = corr_pq.fresh_queue(pcfg)
     emitted, mass = set(), 0.0
     while True:
